@@ -886,7 +886,7 @@ class term_value
 {
 public:
     constexpr term_value(VT v, source_point sp):
-        value(v), sp{ sp }
+        value(std::move(v)), sp{ sp }
     {}
 
     constexpr operator VT() const { return value; }
